@@ -23,7 +23,9 @@ _ND = {
             'is passed"'],
     'C05': ['races between threads entering close() within the same two bytecodes',
             'which of two causes simultaneous in wall-clock time came first',
-            'that the monitor eventually notices a vanished client (timing)'],
+            'that the monitor eventually notices a vanished client (timing)',
+            'what a gateway object raises after the peer is gone (e.g. the ASGI server\'s send): '
+            'whether a driver\'s close() can fail is outside the repository'],
     'C06': ['that queued packets are retrieved by later polls (liveness)',
             'concurrent polls during the handshake (schedules)'],
     'C07': ['"a live peer is never dropped" and "a dead peer is dropped within interval + 3 x '
@@ -61,12 +63,14 @@ _EX = {
            'Packet.__init__, encode and decode for every abstract input case; the provenance term '
            'of every return / attribute write is compared with the Engine.IO v4 wire table; the '
            'encode cache is explored as a finite abstract state machine over all sequences of '
-           'encode calls (fixpoint).',
+           'encode calls (fixpoint). '
+           'Also: the payload splitter hands every packet text to decode() unchanged, and the client WebSocket writers put binary packets (and only those) in binary frames.',
     'C02': 'Provenance terms of Payload.encode for 0/1/2 packets; on every path of decode that '
            'builds packets the refusal guard must have the exact integer form over the number of '
            'parts of the very string that is split; self.packets is written all-or-nothing; the '
            'd= variant feeds the same split; decode is loop-free and raises only ValueError; the '
-           'text-channel form itself is checked through the C01 cache rule.',
+           'text-channel form itself is checked through the C01 cache rule. '
+           'Also: the packet decode table (C01) under this property; BaseServer._ok answers an empty packet list with an (empty) payload; the ASGI driver appends every http.request event it receives, once and in order, and stops only after an event without more_body.',
     'C03': 'Ownership and gating skeleton: the session queue is consumed only in poll(); poll() is '
            'called only by the polling GET (behind the not-upgrading/upgraded gate), the OPEN '
            'response and the WebSocket writer (started only once upgraded); inside poll every '
@@ -74,12 +78,14 @@ _EX = {
            'dequeue is task_done-accounted; the writer sends each packet of a batch once in order '
            'on the binary channel; driver queues are FIFO classes; sessions own fresh queues; '
            'send_packet enqueues on the session of its own sid; every exit of an upgrade request '
-           'leaves upgrading False.',
+           'leaves upgrading False. '
+           'Also: every driver send() hands the message itself to the gateway for text/bytes, empty or not; JSONP wrapping for every index given (0 included); the GET result is classified (packet list -> one payload, otherwise passed through).',
     'C04': 'Dispatch table of receive() over wire types 0..9 on both servers (exact effect per '
            'type, every pre-dispatch statement total on 0..9); handle_post_request: exact size '
            'gate, bounded read, whole body decoded before the first dispatch, one receive per '
            'packet in order, closed-test before every dispatch; WebSocket loop: one dispatch per '
-           'frame, unknown types ignored; protocol errors routed to 400 + session end.',
+           'frame, unknown types ignored; protocol errors routed to 400 + session end. '
+           'Also: an EngineIOError subclass raised by the session handlers is taken by the protocol-error clause and by no earlier clause (exception classes may have several bases); the packet decode table; ASGI body assembly.',
     'C05': 'ONCE(disconnect) in close(): guard on closed/closing, closing=True before the handler, '
            'nothing between test and set, flags monotone; reasons per close site; nothing is '
            'dispatched to a closed session (POST loop and WebSocket loop); handler exceptions are '
@@ -91,62 +97,73 @@ _EX = {
            'exit (normal or explicit-raise) of the upgrade request region (_upgrade_websocket + '
            'driver call + handler + frame reader, inlined) upgrading is False; an upgraded '
            'session refuses re-upgrade before a driver object exists; direct WebSocket sessions '
-           'are upgraded before any I/O; the upgrade protocol must be a configured transport.',
+           'are upgraded before any I/O; the upgrade protocol must be a configured transport. '
+           'Also: no EngineIOError (sub)class leaves the handshake (handle_request would end the polling session for it), with per-flavour driver raise summaries; without a driver the upgrade is refused with 400 and no effect.',
     'C07': 'Wiring and bounds, not timing: schedule_ping starts one _send_ping; _send_ping clears '
            'last_ping, sleeps exactly ping_interval, then on every path with the session neither '
            'closing nor closed stamps last_ping and sends PING; check_ping_timeout closes iff '
            'last_ping set and now - last_ping - ping_timeout > 0 (linear form) with PING_TIMEOUT, '
            'wait=False, abort=False; send() evaluates it before enqueuing; poll waits at most '
-           'ping_interval + ping_timeout.',
+           'ping_interval + ping_timeout. '
+           'Also: last_ping is written only by the constructor and _send_ping; the session queue is created without a size (put() never blocks the monitor); a monitor pass is not left early except on the stop signal.',
     'C08': 'connect() always starts with a fresh queue; failed connects raise ConnectionError '
            'before state/registration change; success adopts the announced values, fires connect '
            'once, starts the loops; disconnect(): one event after the state left "connected", '
            'CLOSE + sentinel, unregister, _reset; read-loop epilogues: ONCE with state change '
            'before the event, unregister + reset, every failure break preceded by put(None); read '
-           'timeouts bounded by the announced timing.',
+           'timeouts bounded by the announced timing. '
+           'Also: _reset() unconditionally sets state/sid first and clears nothing that connect() reads after the handshake packets / connect handler ran; response bodies are decoded under the invalid-response handler; handler calls of _trigger_event are contained and the legacy disconnect retry has the client arity.',
     'C09': 'Dispatch table of _receive_packet over types 0..9 (PONG echoes pkt.data, MESSAGE one '
            'background event, CLOSE -> server disconnect, total on 0..9); write loop: dequeue '
            'order, no re-queue, polling batch as one payload, binary frames iff pkt.binary, batch '
            'bounded by Payload.max_decode_packets; URL table over transport x scheme; upgrade only '
-           'through PING probe / PONG probe / UPGRADE; receive timeouts.',
+           'through PING probe / PONG probe / UPGRADE; receive timeouts. '
+           'Also: the encode/cache table of Packet.encode (falsy payloads included) under this property; _reset() rules.',
     'C10': 'Composition facts: client batch bound <= server per-body limit (same class attribute), '
            'announced pingInterval/pingTimeout and client receive timeouts dominate the ping '
            'period (scaled before truncation), both sides use the same Packet/Payload classes and '
            'the same probe constants in the same order, an empty binary frame is not taken for a '
-           'closed connection, one disconnect per side.',
+           'closed connection, one disconnect per side. '
+           'Also: ASGI body assembly; driver send(); client legacy disconnect retry arity; JSONP wrapping.',
     'C11': 'Path rules on _handle_connect (both servers): one generated id used as table key, OPEN '
            'sid and connect-event argument; OPEN first; field provenance (pingTimeout = '
            'int(t*1000), pingInterval = int((i+g)*1000), maxPayload); cookie iff configured; '
            'reject -> entry deleted + 401 with the handler value; _upgrades advertises websocket '
            'only under every condition under which an upgrade would be accepted; handler '
-           'exceptions (also BaseException) reject the connection.',
+           'exceptions (also BaseException) reject the connection. '
+           'Also: _ok keeps the headers its caller built (the handshake cookie); only task cancellation is swallowed without a verdict in _trigger_event; the upgrade-header test of the session GET handler.',
     'C12': 'Every path of handle_request to a sink (_handle_connect, handle_get_request, '
            'handle_post_request) must carry the full set of admission guards in normalised form '
            '(transport allowed, EIO == [\'4\'] when opening, method, sid present/absent, sid in '
            'table, _get_socket lookup, session-transport or upgrade match, numeric JSONP index); '
            'request attributes are derived by the expected expressions; refusals are 400/405 and '
-           'inert (no event, close, queue access or table write); failed lookups never escape.',
+           'inert (no event, close, queue access or table write); failed lookups never escape. '
+           'Also: the constructor stores transports as the list of valid names among the configured ones (never a bare string); the WSGI/ASGI middleware does not rewrite the request mapping; a refused upgrade leaves upgrading False.',
     'C13': 'The origin test is decided before query parsing / table access on every path; a '
            'refused origin returns 400 with no other effect; _cors_allowed_origins returns None or '
            'a list for every configuration kind (a single string is wrapped: exact match); ACAO is '
            'emitted only with the request origin under the accept condition; credentials iff '
-           'enabled; nothing when disabled.',
+           'enabled; nothing when disabled. '
+           'Also: the constructor stores the origin policy unchanged; every response gets the CORS headers computed from its own request, appended to a copy of a fresh header list.',
     'C14': 'Linear-form size gates: POST refused iff length - max > 0 before any read, read '
            'bounded by the checked length; WebSocket frames read only through the gated reader '
            '(len - max > 0 refuses), all three read points; packet count gate (C02); oversize '
-           'errors routed to 400 + session end; ASGI body buffering reported.',
+           'errors routed to 400 + session end; ASGI body buffering reported. '
+           'Also: Payload instances carry no copy of max_decode_packets; the aiohttp gateway is created without a size limit of its own; ASGI body assembly.',
     'C15': 'Response constructors (status literal, (str,str) header pairs, bytes body, fresh '
            'header list); exactly one start_response / _make_response per request path; protocol '
            'errors -> 400 + non-waiting close; POST processing contained by a catch-all; failed '
            'lookups do not escape; NO-BLOCK: no unbounded blocking primitive reachable from '
            'handle_request (non-upgrade), send, send_packet, disconnect after pruning by literal '
-           'keyword arguments; ASGI make_response event sequences; translate_request totality.',
+           'keyword arguments; ASGI make_response event sequences; translate_request totality. '
+           'Also: ASGI header values are encoded with the codec they are decoded with; disconnect() never hands asyncio.wait an empty or filtered collection; session queue unbounded; id counter arithmetic (C17) under this property.',
     'C16': '_get_socket removes and refuses closed entries; send_packet is a silent no-op for dead '
            'ids and enqueues only on the addressed session; get/save_session, transport, session() '
            'reach the table through _get_socket(sid) and propagate KeyError; fresh session dict '
            'and queue per socket, no class-level containers; reaping sites (lookup, after GET, '
            'WebSocket end, sweep, reject, disconnect); sweep visits a copy, checks every live '
-           'session, paced by ping_timeout / n.',
+           'session, paced by ping_timeout / n. '
+           'Also: session queue unbounded; monitor pass not cut short.',
     'C17': 'generate_id matched against encode(random(n) || counter(k bytes, big-endian)); closed '
            'arithmetic obligations over the extracted constants: CSPRNG source on every call, 8n '
            '>= 96, counter update (c+1) & m with m = 2^(8k)-1 (full period 2^24), concatenation + '
@@ -162,12 +179,14 @@ _EX = {
            'encoding, under http_compression, len >= threshold (linear form) and a supported '
            'offered encoding; codec registry (_gzip via GzipFile(w), _deflate = zlib.compress); '
            'JSONP body = ___eio[i](json.dumps(payload)); response constructors build fresh header '
-           'lists.',
+           'lists. '
+           'Also: the handshake passes the JSONP index to _ok together with the cookie header; the encode/cache table under this property.',
     'C20': 'Endpoint normalised to /x/; engine branch iff path.startswith(endpoint) (WSGI) / '
            'ensure_trailing_slash(path).startswith(endpoint) (ASGI); fallback order static -> app '
            '-> 404 as path guards; lifespan events answered by exactly one complete/failed and '
            'return; static files: the request-derived suffix reaches the filename only after a '
-           'recognised ..-segment sanitizer; content type from mapping, extension, default.',
+           'recognised ..-segment sanitizer; content type from mapping, extension, default. '
+           'Also: the middleware does not rewrite the request mapping; endpoint normalisation decided by constant folding over eight representative spellings (root endpoint included); lifespan callbacks sit under a catch-all.',
 }
 
 
@@ -180,7 +199,9 @@ def meta(pid, level='other', extra_tb=None):
                         ' Not decided (stated limits): ' + '; '.join(_ND[pid]) + '.'),
         'trusted_base': COMMON_TB + (extra_tb or []),
         'not_decided': _ND[pid],
-        'assumptions': ['single inheritance, no metaclasses, no monkey-patching inside src/',
+        'assumptions': ['no metaclasses, no monkey-patching inside src/; multiple inheritance is '
+                        'modelled for exception classes (first matching except clause), other '
+                        'classes are resolved along their MRO',
                         'applications do not replace Packet.json with an incompatible module'],
         'exhaustive': True,
     }
